@@ -32,6 +32,10 @@ func Cfg(key, val string)
 func Param(name string, def int) int
 func Unix(sec int64, loc *time.Location) time.Time
 func Symbolic() bool
+func Footprint(label string, f func())
+func ConflictFree(a, b string) bool
+func WritesNothingShared(a string) bool
+func Repeat(n int) int
 // File is one member of a GTFS static archive given as a table.
 type File struct {
 	Name   string
